@@ -61,6 +61,24 @@ def tainted_sources(b, op):
                 if re.search(r"^&(mut )?str$|::String$", ty) and SRC_PARAM.search(nm) and not NOT_SRC_PARAM.search(nm):
                     if ("parameter %s: %s" % (nm, ty), b.loc()) not in srcs:
                         srcs.append(("parameter %s: %s" % (nm, ty), b.loc()))
+    # String fields of a struct parameter that names an endpoint / key (`endpoint.path`, `endpoint.host`: server-supplied text)
+    for p in sl.places + ([op["p"]] if op["k"] in ("cp", "mv") else []):
+        owner = None
+        # (async fns re-bind their captured parameters to named locals: `endpoint = _1.upvar:endpoint`)
+        if (1 <= p[0] <= b.argc or b.locals[p[0]].get("u")) and SRC_PARAM.search(b.local_name(p[0]) or "") and "cascette_" in (b.local_ty(p[0]) or ""):
+            owner = b.local_name(p[0])
+        for e in p[1:]:
+            if not isinstance(e, dict):
+                continue
+            nm = str(e.get("n", ""))
+            if nm.startswith("upvar:"):
+                if SRC_PARAM.search(nm[len("upvar:"):]):
+                    owner = nm[len("upvar:"):]
+                continue
+            if owner and "f" in e and re.search(r"^&(mut )?str$|::String$", strip_regions(e.get("t", ""))):
+                src = ("field %s.%s: String" % (owner, nm), b.loc())
+                if src not in srcs:
+                    srcs.append(src)
     # encodings cut taint: if every route goes through a safe encoding the slice still lists the source; approximate by
     # requiring that no safe encoding is in the slice for a source to count through that call
     if srcs and any(SAFE_ENC.search(c.name) for c in sl.calls) and not any(s[0].startswith("as_cache_key") for s in srcs):
@@ -381,7 +399,44 @@ def r6_injective_name(ctx):
                   sample={"final_component_at": c.loc(), "contains_key_string": has_key})
 
 
+KEY_FILES = ["crates/cascette-cache/src/key.rs", "crates/cascette-cache/src/disk_cache.rs", "crates/cascette-protocol/src/cache.rs"]
+
+
+def r7_fixed_width_hex(ctx):
+    """key strings and file names are made of hash bytes written as hex: a piece that consists of nothing but a hex placeholder is
+    glued to its neighbours by the caller (a per-byte loop), so it must be fixed width (`{:02x}`) - `{:x}` drops the leading zero of
+    bytes below 0x10 and two different hashes give the same key / file name"""
+    import os
+    from . import extract
+    from .c15 import astx_records, PLACEHOLDER
+    rule = "C20.R7"
+    ctx.rule(rule, "in the key / file-name builders every format template that is only a hex placeholder has a zero-padded width")
+    files = [os.path.join(extract.src_root(), f) for f in KEY_FILES if os.path.exists(os.path.join(extract.src_root(), f))]
+    if not ctx.anchor(rule, len(files) == len(KEY_FILES), "key builder source files"):
+        return
+    recs = astx_records(files)
+    n = 0
+    for r in recs:
+        if r.get("rec") != "macro" or r.get("name") not in ("format", "write", "writeln", "format_args", "print", "println"):
+            continue
+        t = r.get("template", "")
+        phs = PLACEHOLDER.findall(t)
+        hexes = [ph for ph in phs if re.search(r":[^}]*[xX]\??$", ph)]
+        if not hexes:
+            continue
+        n += 1
+        bare = t.strip() == "{%s}" % hexes[0] if len(phs) == 1 else False
+        padded = all(re.search(r":0\d+[xX]$", ph) for ph in hexes)
+        where = "%s:%s" % (r.get("file", "?"), r.get("line", "?"))
+        ctx.check(padded or not bare, rule, [os.path.basename(str(r.get("file", ""))), r.get("fn", "?"), "hex-piece-fixed-width"], "hex piece has a fixed width",
+                  "%s::%s writes a key piece with the template %r: the piece is nothing but a variable-width hex number, so consecutive pieces run together - bytes "
+                  "01 23 and 12 03 both give `123`; two distinct hashes share one cache key / file name and overwrite each other" % (r.get("impl") or "", r.get("fn"), t),
+                  where, sample={"template": t})
+    ctx.floor(rule, n, 1, "hex placeholders in key / file-name builders")
+
+
 def run(ctx):
+    r7_fixed_width_hex(ctx)
     r1_path_taint(ctx)
     r1b_extension(ctx)
     r2_const_slices(ctx)
